@@ -25,6 +25,9 @@ package sync
 //@   ensures result1 != nil ==> qFrom == old(qFrom) && qTo == old(qTo)
 //@   ensures result1 == nil ==> qFrom == bigval(q.FromBlock) && qTo == bigval(q.ToBlock) && len(result0) == logsCount(qFrom, qTo) && off(result0) == 0 && seq(result0) == logsIn(qFrom, qTo)
 //@   ensures result1 == nil ==> forall(k, 0, len(result0), len(result0[k].Topics) > 0 && bigval(q.FromBlock) <= result0[k].BlockNumber && result0[k].BlockNumber <= bigval(q.ToBlock))
+// assumed of the node (A8): logs come in block order, and within one answer a block number has one block hash
+//@   ensures result1 == nil ==> forall(j, 0, len(result0), forall(k, j, len(result0), result0[j].BlockNumber <= result0[k].BlockNumber))
+//@   ensures result1 == nil ==> forall(j, 0, len(result0), forall(k, 0, len(result0), result0[j].BlockNumber == result0[k].BlockNumber ==> result0[j].BlockHash == result0[k].BlockHash))
 
 //@ func (h *RetryHandler) Handle
 //@   trusted
@@ -40,10 +43,19 @@ package sync
 //@   ensures[one-query-over-exactly-the-requested-range] result != nil ==> qFrom == fromBlock && qTo == toBlock
 //@   ensures[only-logs-of-that-query] forall(k, 0, len(result), exists(j, 0, logsCount(fromBlock, toBlock), result[k] == logsIn(fromBlock, toBlock)[j] && !logsIn(fromBlock, toBlock)[j].Removed))
 //@   ensures[logs-of-the-range] forall(k, 0, len(result), len(result[k].Topics) > 0 && fromBlock <= result[k].BlockNumber && result[k].BlockNumber <= toBlock)
+//@   ensures[in-block-order] forall(j, 0, len(result) - 1, result[j].BlockNumber <= result[j+1].BlockNumber)
+//@   ensures[one-hash-per-block-number] forall(j, 0, len(result), forall(i, 0, len(result), result[j].BlockNumber == result[i].BlockNumber ==> result[j].BlockHash == result[i].BlockHash))
 //@   loop 0 invariant d != nil && d.ethClient != nil && d.log != nil && d.rh != nil && query.FromBlock != nil && query.ToBlock != nil && bigval(query.FromBlock) == fromBlock && bigval(query.ToBlock) == toBlock
 //@   loop 1 invariant qFrom == fromBlock && qTo == toBlock && len(unfilteredLogs) == logsCount(fromBlock, toBlock) && off(unfilteredLogs) == 0 && seq(unfilteredLogs) == logsIn(fromBlock, toBlock) && off(logs) == 0
 //@   loop 1 invariant forall(k, 0, len(unfilteredLogs), len(unfilteredLogs[k].Topics) > 0 && fromBlock <= unfilteredLogs[k].BlockNumber && unfilteredLogs[k].BlockNumber <= toBlock) && forall(k, 0, len(logs), len(logs[k].Topics) > 0 && fromBlock <= logs[k].BlockNumber && logs[k].BlockNumber <= toBlock)
 //@   loop 1 invariant forall(k, 0, len(logs), exists(j, 0, logsCount(fromBlock, toBlock), logs[k] == logsIn(fromBlock, toBlock)[j] && !logsIn(fromBlock, toBlock)[j].Removed))
+//@   loop 1 invariant 0 <= rangeindex + 1 && rangeindex + 1 <= len(unfilteredLogs)
+//@   loop 1 invariant forall(j, 0, len(unfilteredLogs), forall(k, j, len(unfilteredLogs), unfilteredLogs[j].BlockNumber <= unfilteredLogs[k].BlockNumber))
+//@   loop 1 invariant forall(j, 0, len(unfilteredLogs), forall(k, 0, len(unfilteredLogs), unfilteredLogs[j].BlockNumber == unfilteredLogs[k].BlockNumber ==> unfilteredLogs[j].BlockHash == unfilteredLogs[k].BlockHash))
+//@   loop 1 invariant forall(j, 0, len(logs) - 1, logs[j].BlockNumber <= logs[j+1].BlockNumber)
+//@   loop 1 invariant forall(j, 0, len(logs), forall(k, rangeindex + 1, len(unfilteredLogs), logs[j].BlockNumber <= unfilteredLogs[k].BlockNumber))
+//@   loop 1 invariant forall(j, 0, len(logs), forall(k, 0, len(unfilteredLogs), logs[j].BlockNumber == unfilteredLogs[k].BlockNumber ==> logs[j].BlockHash == unfilteredLogs[k].BlockHash))
+//@   loop 1 invariant forall(j, 0, len(logs), forall(i, 0, len(logs), logs[j].BlockNumber == logs[i].BlockNumber ==> logs[j].BlockHash == logs[i].BlockHash))
 
 // ---- the download loop (C05): blocks are scanned for watched events in increasing, gap-free ranges starting at the
 // first block requested; a block without events is only reported (which moves the last-processed marker) after the
@@ -181,11 +193,17 @@ package sync
 //@   modifies heap, qFrom, qTo
 //@   ensures[blocks-inside-the-range] forall(k, 0, len(result), result[k] != nil && fromBlock <= result[k].Num && result[k].Num <= toBlock)
 //@   ensures[each-block-once-in-increasing-order] forall(k, 0, len(result) - 1, result[k].Num < result[k+1].Num)
+// every log is decoded into the block that carries the log's own number and hash (given that the node answers in block
+// order with one hash per block number, A8)
+//@   assert call:dyn arg0 != nil && arg0.Num == arg1.BlockNumber && arg0.Hash == arg1.BlockHash
 //@   loop 0 invariant d != nil && d.ethClient != nil && d.log != nil && d.rh != nil && d.appender != nil && 0 <= rangeindex + 1 && off(blocks) == 0
+//@   loop 0 invariant rangeindex + 1 <= len(logs) && forall(j, 0, len(logs) - 1, logs[j].BlockNumber <= logs[j+1].BlockNumber) && forall(j, 0, len(logs), forall(i, 0, len(logs), logs[j].BlockNumber == logs[i].BlockNumber ==> logs[j].BlockHash == logs[i].BlockHash))
+//@   loop 0 invariant (latestBlock != nil) == (rangeindex >= 0) && (latestBlock != nil ==> latestBlock.Num == logs[rangeindex].BlockNumber && latestBlock.Hash == logs[rangeindex].BlockHash)
 //@   loop 0 invariant forall(k, 0, len(logs), len(logs[k].Topics) > 0 && fromBlock <= logs[k].BlockNumber && logs[k].BlockNumber <= toBlock)
 //@   loop 0 invariant (latestBlock == nil) == (len(blocks) == 0) && (latestBlock != nil ==> latestBlock == blocks[len(blocks) - 1])
 //@   loop 0 invariant forall(k, 0, len(blocks), blocks[k] != nil && fresh(blocks[k]) && fromBlock <= blocks[k].Num && blocks[k].Num <= toBlock)
 //@   loop 0 invariant forall(k, 0, len(blocks) - 1, blocks[k].Num < blocks[k+1].Num)
 //@   loop 1 invariant d != nil && d.log != nil && d.rh != nil && latestBlock != nil && latestBlock == blocks[len(blocks) - 1] && off(blocks) == 0
+//@   loop 1 invariant latestBlock.Num == l.BlockNumber && latestBlock.Hash == l.BlockHash
 //@   loop 1 invariant forall(k, 0, len(blocks), blocks[k] != nil && fresh(blocks[k]) && fromBlock <= blocks[k].Num && blocks[k].Num <= toBlock)
 //@   loop 1 invariant forall(k, 0, len(blocks) - 1, blocks[k].Num < blocks[k+1].Num)
